@@ -634,6 +634,14 @@ namespace
             case T_PLUS_EQ:
 #ifdef C14_TWIN
                 if (m.size() == N) { overflow_offered = true; probe("push_when_full"); }
+                if (val % 3 == 0)
+                {
+                    // the result of += used as the string itself: a chain of appends, and a member call on the result
+                    ((*x += (char)('0' + val % 10)) += 'q').push_back('r');
+                    for (char ch : {(char)('0' + val % 10), 'q', 'r'}) if (m.size() < N) m.push_back(ch);
+                    probe("result_of_plus_equals_used");
+                    break;
+                }
                 *x += (char)('0' + val % 10);
                 if (m.size() < N) m.push_back((char)('0' + val % 10));
 #endif
